@@ -123,6 +123,16 @@ def _iv(e):
     return (e["ts"], e["ts"] + e["dur"])
 
 
+def _ivr(e):
+    """the slice with the end rounded the way the tool rounds it (0.1 ns)"""
+    return (e["ts"], round(e["ts"] + e["dur"], 4))
+
+
+def offending(p, o):
+    """p and o partially overlap: not laminar on the raw ends or not on the tool's rounded ends"""
+    return not lam(_iv(p), _iv(o), 0.0) or not lam(_ivr(p), _ivr(o), 0.0)
+
+
 def lam(a, b, tol):
     (sa, ea), (sb, eb) = a, b
     return (ea <= sb + tol or eb <= sa + tol or (sa <= sb + tol and eb <= ea + tol)
@@ -141,10 +151,10 @@ def oracle(case, r):
             lanes = {}
             for e in ins:
                 if e["ph"] == "X":
-                    lanes.setdefault((e["pid"], e["tid"]), []).append(_iv(e))
-            for ivs in lanes.values():
-                for b in ivs:
-                    n = sum(1 for a in ivs if a is not b and a[0] <= b[0] + TOL and b[0] < a[1] + TOL and a[1] < b[1] + TOL)
+                    lanes.setdefault((e["pid"], e["tid"]), []).append(e)
+            for evs in lanes.values():
+                for b in evs:
+                    n = sum(1 for a in evs if a is not b and a["ts"] <= b["ts"] and offending(a, b))
                     if n >= BUDGET + 1:
                         return None
             return ("overlap-crash", f"KeyError (lane budget) although no slice partially overlaps {BUDGET+1} others on its lane")
@@ -199,7 +209,7 @@ def oracle(case, r):
             o = by_uid[e["args"]["uid"]]
             if o["ph"] == "X" and e["tid"] != o["tid"]:
                 peers = inl[(o["pid"], o["tid"])]
-                if not any((p is not o) and not lam(_iv(p), _iv(o), -TOL) for p in peers):
+                if not any((p is not o) and offending(p, o) for p in peers):
                     return ("overlap-moved-innocent", f"uid {o['args']['uid']} {_iv(o)} moved from tid {o['tid']} to {e['tid']} "
                                                       "although it is nested in / disjoint from every slice of its lane")
     return None
